@@ -1,7 +1,7 @@
 (* C05 - interval elementary functions and integer powers enclose every pointwise value.
    The libm functions are oracles of the model; in these theorems they are the real functions exp, ln, sin, cos. *)
 From Coq Require Import Reals Lra ZArith.
-From PUN Require Import Base.Num Model.Interval Model.IntervalFun Proofs.IntervalFun Proofs.Trig Proofs.TrigV.
+From PUN Require Import Base.Num Model.Interval Model.IntervalFun Proofs.IntervalFun Proofs.Trig Proofs.TrigV Gen.GenTrig Proofs.TrigTie.
 Open Scope R_scope.
 
 Section S.
@@ -73,7 +73,24 @@ Proof. exact (isin_full_period fsin fmod lo hi x). Qed.
 Theorem C05_cos_full_period lo hi x : 2 * PI <= hi - lo ->
   icos RN PI fcos fmod (lo, hi) = Ok (-1, 1) /\ -1 <= cos x <= 1.
 Proof. exact (icos_full_period fcos fmod lo hi x). Qed.
+(* TIE: the same statements about the functions translated from pba/intervals/methods.py on every run (Gen/GenTrig.v): the scalar case
+   tables of sin, cos, tan and the masked array forms, as the source has them NOW, enclose the function for every interval *)
+Theorem C05_translated_sin_encloses lo hi a b x : lo <= hi -> gen_sin RN PI fsin fmod (lo, hi) = Ok (a, b) -> lo <= x <= hi -> a <= sin x <= b.
+Proof. exact (gen_sin_encl fsin fmod fsin_is fmod_spec lo hi a b x). Qed.
+Theorem C05_translated_cos_encloses lo hi a b x : lo <= hi -> gen_cos RN PI fcos fmod (lo, hi) = Ok (a, b) -> lo <= x <= hi -> a <= cos x <= b.
+Proof. exact (gen_cos_encl fcos fmod fcos_is fmod_spec lo hi a b x). Qed.
+Theorem C05_translated_sin_array_encloses lo hi a b x : lo <= hi -> gen_sin_vector RN PI fsin fmod (lo, hi) = Ok (a, b) -> lo <= x <= hi -> a <= sin x <= b.
+Proof. exact (gen_sin_vector_encl fsin fmod fsin_is fmod_spec lo hi a b x). Qed.
+Theorem C05_translated_cos_array_encloses lo hi a b x : lo <= hi -> gen_cos_vector RN PI fcos fmod (lo, hi) = Ok (a, b) -> lo <= x <= hi -> a <= cos x <= b.
+Proof. exact (gen_cos_vector_encl fcos fmod fcos_is fmod_spec lo hi a b x). Qed.
+Theorem C05_translated_tan_encloses lo hi a b x : lo <= hi -> cos lo <> 0 -> cos hi <> 0 ->
+  gen_tan RN PI ftan fmod (lo, hi) = Ok (@Fin RN a, @Fin RN b) -> lo <= x <= hi -> cos x <> 0 /\ a <= tan x <= b.
+Proof. exact (gen_tan_encl ftan fmod ftan_is fmodpi_spec lo hi a b x). Qed.
 End S.
+(* exp, log, sqrt of the source are the model's definitions (any number structure) *)
+Theorem C05_monotone_functions_are_translated (N : Num) (fexp flog : N -> N) (x : N * N) :
+  gen_exp N fexp x = iexp N fexp x /\ gen_log N flog x = ilog N flog x /\ gen_sqrt N x = isqrt N x.
+Proof. exact (conj (gen_exp_is_model N fexp x) (conj (gen_log_is_model N flog x) (gen_sqrt_is_model N x))). Qed.
 
 Print Assumptions C05_exp_exact.
 Print Assumptions C05_tanh_exact.
@@ -86,3 +103,9 @@ Print Assumptions C05_cos_encloses.
 Print Assumptions C05_tan_encloses.
 Print Assumptions C05_sin_array_encloses.
 Print Assumptions C05_cos_array_encloses.
+Print Assumptions C05_translated_sin_encloses.
+Print Assumptions C05_translated_cos_encloses.
+Print Assumptions C05_translated_tan_encloses.
+Print Assumptions C05_translated_sin_array_encloses.
+Print Assumptions C05_translated_cos_array_encloses.
+Print Assumptions C05_monotone_functions_are_translated.
